@@ -12,23 +12,26 @@ proofs coq/theories/proofs/KernelsSrcOK.v and ProcsSrcOK.v.
         translator error  exit status 2, message TRANSLATOR-ERROR: <file>:<line>: unsupported ..., nothing written
     is checked (for `proof breaks` also the theorem that has to fail).
 
-usage:  /venv/bin/python harness/tools/tests_gen_kernels.py [--keep] [--only name,name]
+usage:  /venv/bin/python harness/tools/tests_gen_kernels.py [--keep] [--only name,name] [--no-crop]
+        (--no-crop: without the CropSrc pair, whose proof file takes about 8 minutes per compilation; env GEN_KERNELS=<file
+         in harness/> runs another copy of the translator, env KERNELSRC_TEST_DIR=<dir> uses another scratch directory)
 exit status 0 iff every test behaved as expected.  Scratch: /tmp/kernelsrc/selftest (removed afterwards unless --keep)."""
 import os, re, shutil, subprocess, sys, time
 
 VERIF = os.path.dirname(os.path.dirname(os.path.dirname(os.path.abspath(__file__))))
 SRC_REPO = os.environ.get("VERIF_REPO", "/repo")
-BASE = "/tmp/kernelsrc/selftest"
+BASE = os.environ.get("KERNELSRC_TEST_DIR", "/tmp/kernelsrc/selftest")
 PY = "/venv/bin/python"
-GEN = os.path.join(VERIF, "harness", "gen_kernels.py")
+GEN = os.path.join(VERIF, "harness", os.environ.get("GEN_KERNELS", "gen_kernels.py"))     # GEN_KERNELS=gen_kernels_dev.py: a private copy
 THEORIES = os.path.join(VERIF, "coq", "theories")
 SOL = "aquacrop/solution/"
 
 
 def source_files():
     sys.path.insert(0, os.path.join(VERIF, "harness"))
-    import gen_kernels
-    return sorted({rel for rel, _ in gen_kernels.FUNCTIONS + gen_kernels.PROCS})
+    import importlib
+    gen_kernels = importlib.import_module(os.path.basename(GEN)[:-3])
+    return sorted({rel for rel, _ in gen_kernels.FUNCTIONS + gen_kernels.PROCS + gen_kernels.CROPS})
 
 
 def copy_repo(dst, files):
@@ -62,7 +65,8 @@ def make_scratch_tree(scratch):
         for n in names:
             if not n.endswith(".vo"):
                 continue
-            if (reld, n) in (("gen", "KernelsSrc.vo"), ("proofs", "KernelsSrcOK.vo"), ("gen", "ProcsSrc.vo"), ("proofs", "ProcsSrcOK.vo")):
+            if (reld, n) in (("gen", "KernelsSrc.vo"), ("proofs", "KernelsSrcOK.vo"), ("gen", "ProcsSrc.vo"), ("proofs", "ProcsSrcOK.vo"),
+                             ("gen", "CropSrc.vo"), ("proofs", "CropSrcOK.vo")):
                 continue
             os.makedirs(os.path.join(scratch, "theories", reld), exist_ok=True)
             os.symlink(os.path.join(d, n), os.path.join(scratch, "theories", reld, n))
@@ -70,9 +74,11 @@ def make_scratch_tree(scratch):
     os.makedirs(os.path.join(scratch, "theories", "proofs"), exist_ok=True)
     shutil.copy(os.path.join(THEORIES, "proofs", "KernelsSrcOK.v"), os.path.join(scratch, "theories", "proofs"))
     shutil.copy(os.path.join(THEORIES, "proofs", "ProcsSrcOK.v"), os.path.join(scratch, "theories", "proofs"))
+    shutil.copy(os.path.join(THEORIES, "proofs", "CropSrcOK.v"), os.path.join(scratch, "theories", "proofs"))
 
 
-PAIRS = [("KernelsSrc", "KernelsSrcOK"), ("ProcsSrc", "ProcsSrcOK")]
+PAIRS = [("KernelsSrc", "KernelsSrcOK"), ("ProcsSrc", "ProcsSrcOK"), ("CropSrc", "CropSrcOK")]
+COMPILED = {}        # generated file -> text whose .vo (and proof .vo) is in the scratch tree right now
 
 
 def read_out(out):
@@ -82,31 +88,39 @@ def read_out(out):
 INFRA = ("inconsistent assumptions", "Cannot find a physical path", "Cannot find library", "Compiled library", "bad version number")
 
 
-def coq_check(out, scratch, verified=None):
-    """compile the generated files of directory `out` and their proof files; a generated file that is byte-identical to
-    one already verified (the baseline) is skipped.
+def coq_check(out, scratch, crop=True):
+    """compile the generated files of directory `out` and their proof files in the scratch tree.  A pair is compiled
+    again only if its generated text differs from what the scratch tree holds, or (CropSrc, which imports the two
+    others) if one of the others was compiled again since.  crop=False: the CropSrc pair (about 9 minutes) is left out.
     -> ("ok", "") | ("gen", msg) a generated file does not compile | ("proof", theorem) | ("infra", msg)"""
     todo = []
     for g, pr in PAIRS:
         text = open(os.path.join(out, g + ".v")).read()
-        if verified is not None and verified.get(g) == text:
+        if g == "CropSrc" and not crop:
             continue
+        if COMPILED.get(g) == text:
+            continue
+        COMPILED.pop(g, None)
+        if g != "CropSrc":
+            COMPILED.pop("CropSrc", None)          # its .vo depends on this one
         for ext in (".vo", ".vok", ".vos", ".glob"):
             for f in ("gen/" + g, "proofs/" + pr):
                 p = os.path.join(scratch, "theories", f + ext)
                 if os.path.lexists(p):
                     os.remove(p)
         shutil.copy(os.path.join(out, g + ".v"), os.path.join(scratch, "theories", "gen", g + ".v"))
-        todo += ["theories/gen/%s.v" % g, "theories/proofs/%s.v" % pr]
-    for f in todo:
+        todo += [("theories/gen/%s.v" % g, None, None), ("theories/proofs/%s.v" % pr, g, text)]
+    for f, done_g, done_text in todo:
         for attempt in range(3):
-            r = subprocess.run(["timeout", "900", "coqc", "-Q", "theories", "AC", f], cwd=scratch, capture_output=True, text=True)
+            r = subprocess.run(["timeout", "2400", "coqc", "-Q", "theories", "AC", f], cwd=scratch, capture_output=True, text=True)
             err = (r.stderr or "") + (r.stdout if r.returncode else "")
             if r.returncode != 0 and any(k in err for k in INFRA) and attempt < 2:
                 time.sleep(120)       # another process is rebuilding the shared libraries
                 continue
             break
         if r.returncode == 0:
+            if done_g is not None:
+                COMPILED[done_g] = done_text
             continue
         if any(k in err for k in INFRA) or r.returncode == 124:
             return "infra", err.strip().splitlines()[-1][:200] if err.strip() else "timeout"
@@ -135,6 +149,7 @@ AER, WST, ADJ, UPD = SOL + "aeration_stress.py", SOL + "water_stress.py", SOL + 
 CMP, RST = "aquacrop/initialize/compute_variables.py", "aquacrop/timestep/reset_initial_conditions.py"
 IRR, GST, BIO = SOL + "irrigation.py", SOL + "growth_stage.py", SOL + "biomass_accumulation.py"
 RST2 = "aquacrop/timestep/run_single_timestep.py"
+HIX, CCV = SOL + "harvest_index.py", SOL + "canopy_cover.py"
 HIR, POL, PST = SOL + "HIref_current_day.py", SOL + "HIadj_pollination.py", SOL + "HIadj_post_anthesis.py"
 
 MUTATIONS = [
@@ -276,6 +291,31 @@ MUTATIONS = [
                          "incoming DryYield/FreshYield are no longer read: the generated signature loses two parameters)",
      lambda r: edit(r, RST2, "    elif growing_season is False:\n        # Crop yield_ is zero", "    else:\n        # Crop yield_ is zero"),
      "proof breaks", "yield_block_src_ok"),
+    # ---- phase 3: harvest_index / canopy_cover (CropSrc.v / CropSrcOK.v; only these rows compile the CropSrc pair)
+    ("hi_cap_cmp", "harvest_index: cap test `HImult > 1 + dHI0/100` -> `>=`",
+     lambda r: edit(r, HIX, "if HImult > 1 + (Crop.dHI0 / 100):", "if HImult >= 1 + (Crop.dHI0 / 100):"),
+     "proof breaks", "harvest_index_src_ok"),
+    ("hi_drop_pol", "harvest_index: `HImax = NewCond.f_pol * Crop.HI0` -> `HImax = Crop.HI0` (pollination factor dropped)",
+     lambda r: edit(r, HIX, "HImax = NewCond.f_pol * Crop.HI0", "HImax = Crop.HI0"),
+     "proof breaks", "harvest_index_src_ok"),
+    ("hi_ext_args", "harvest_index: root_zone_water called with Crop.Zmin in place of Crop.Aer (pinned argument list)",
+     lambda r: edit(r, HIX, "            float(Crop.Zmin),\n            Crop.Aer,\n", "            float(Crop.Zmin),\n            Crop.Zmin,\n"),
+     "proof breaks", "harvest_index_src_calls_pinned"),
+    ("hi_record_read", "harvest_index: the record ksw is no longer filled before it is handed to HIadj_pollination",
+     lambda r: edit(r, HIX, "        ksw.exp, ksw.sto, ksw.sen, ksw.pol, ksw.sto_lin = Ksw_Exp, Ksw_Sto, Ksw_Sen, Ksw_Pol, Ksw_StoLin\n", ""),
+     "translator error", r"aquacrop/solution/harvest_index\.py:\d+: unsupported read of the attribute ksw\.\w+ that this function has not assigned"),
+    ("hi_rename", "harvest_index: local HImult renamed HIm everywhere (harmless)",
+     lambda r: edit(r, HIX, "HImult", "HIm", count=None),
+     "still proves", None),
+    ("cc_const", "canopy_cover: protected-seed test `InitCond_CC <= 1.25 * cc0_adj` -> 1.5",
+     lambda r: edit(r, CCV, "(InitCond_CC <= (1.25 * NewCond.cc0_adj))", "(InitCond_CC <= (1.5 * NewCond.cc0_adj))"),
+     "proof breaks", "canopy_cover_src_ok"),
+    ("cc_cmp", "canopy_cover, early senescence: `if CCsen > Crop.CCx:` -> `>=`",
+     lambda r: edit(r, CCV, "if CCsen > Crop.CCx:", "if CCsen >= Crop.CCx:"),
+     "proof breaks", "canopy_cover_src_ok"),
+    ("cc_unknown_class", "canopy_cover: `water_stress_coef = Ksw()` -> an unknown constructor",
+     lambda r: edit(r, CCV, "        water_stress_coef = Ksw()\n        water_stress_coef.exp,", "        water_stress_coef = dict()\n        water_stress_coef.exp,"),
+     "translator error", r"aquacrop/solution/canopy_cover\.py:\d+: unsupported "),
     ("syntax_error", "water_stress: source no longer parses",
      lambda r: edit(r, WST, "    Ksw_Exp = Ks[0]\n", "    Ksw_Exp = Ks[0\n"),
      "translator error", r"aquacrop/solution/water_stress\.py:\d+: unsupported syntax"),
@@ -285,6 +325,7 @@ MUTATIONS = [
 def main():
     argv = sys.argv[1:]
     keep = "--keep" in argv
+    no_crop = "--no-crop" in argv      # leave the CropSrc pair (about 9 minutes per compilation) and its rows out
     only = None
     if "--only" in argv:
         only = argv[argv.index("--only") + 1].split(",")
@@ -309,11 +350,11 @@ def main():
     if base_text is not None:
         same = all(os.path.exists(os.path.join(THEORIES, "gen", g + ".v"))
                    and open(os.path.join(THEORIES, "gen", g + ".v")).read() == base[g] for g, _ in PAIRS)
-        rows.append(("baseline/current", "coq/theories/gen/{KernelsSrc,ProcsSrc}.v are what the translator produces now", "identical",
+        rows.append(("baseline/current", "coq/theories/gen/{KernelsSrc,ProcsSrc,CropSrc}.v are what the translator produces now", "identical",
                      "identical" if same else "DIFFERENT (regenerate)", same))
         ok_all &= same
-        kind, detail = coq_check(out0, scratch)
-        rows.append(("baseline/coq", "KernelsSrc.v, KernelsSrcOK.v, ProcsSrc.v and ProcsSrcOK.v compile", "still proves",
+        kind, detail = coq_check(out0, scratch, crop=not no_crop)
+        rows.append(("baseline/coq", "KernelsSrc.v, ProcsSrc.v, CropSrc.v and their three proof files compile", "still proves",
                      {"ok": "still proves", "gen": "generated file rejected: " + detail, "proof": "proof breaks at " + detail,
                       "infra": "INFRASTRUCTURE: " + detail}[kind], kind == "ok"))
         ok_all &= kind == "ok"
@@ -321,6 +362,8 @@ def main():
     # ---- (b) mutations
     for name, what, apply, expected, detail in MUTATIONS:
         if only is not None and name not in only:
+            continue
+        if no_crop and name.startswith(("hi_", "cc_")):
             continue
         repo = os.path.join(BASE, "repo_" + name)
         out = os.path.join(BASE, "out_" + name)
@@ -340,7 +383,7 @@ def main():
             text = "".join(read_out(out)[g] for g, _ in PAIRS)
             strip = lambda s: re.sub(r"\(\*.*?\*\)", "", s, flags=re.S)
             changed = strip(text) != strip(base_text or "")
-            kind, d = coq_check(out, scratch, base)
+            kind, d = coq_check(out, scratch, crop=name.startswith(("hi_", "cc_")))
             if kind == "ok":
                 got, shown = "still proves", "still proves (generated definitions %s)" % ("changed" if changed else "unchanged")
                 good = expected == "still proves"
